@@ -35,7 +35,7 @@ fn build_root() -> Context<'static> {
     ctx
 }
 
-const P18: [&str; 28] = [
+const P18: [&str; 30] = [
     "xs + [9]", "xs + ys", "xs + xs", "(xs + ys) + xs", "e + xs", "s + 'c'", "s + s", "es + s", "xs.map(v, v + 1)", "xs.filter(v, v > 1)", "n.map(l, l + [0])", "n[0] + n[1]",
     "m.k + [2]", "m.map(k, m[k] + [5])", "[xs, xs]", "{'a': xs}", "r0 + [7]", "r0 + r0",
     // a macro that fails in the middle of its loop, and macros that read a same-named outer
@@ -45,6 +45,9 @@ const P18: [&str; 28] = [
     // a macro variable named like a context variable that is read again after the macro
     "[1, 2].map(r0, r0 * 2) + r0", "xs.map(v, v + 1) + [v]",
     "s.matches('^a')", "s.matches('b$') && !s.matches('^b')", "[string(xs[0]), string(xs[1]), s + string(v)]", "size(xs + ys) + size(s + s)",
+    // the same question asked of two short-lived values of the same shape but different content
+    // (an answer remembered by the address of a temporary would be stale)
+    "[has({'a': 1}.a), {'a': 1}.size() == 1, 1 in {'a': 1}]", "[has({'b': 1}.a), {'b': 2}.size() == 2, 1 in {'b': 1}]",
 ];
 
 fn arc_id(v: &Value) -> Option<(usize, usize)> {
